@@ -92,6 +92,13 @@ func (m *Machine) binop(op token.Token, t types.Type, x, y Value, yt types.Type)
 			if m.branch(z) {
 				panic(m.goPanic("integer divide by zero"))
 			}
+			if yv.IsConst() && !xv.IsConst() && xv.Sort.W == 64 && m.Spec.DivAxioms {
+				q, r := m.divByConst(xv, yv, signed)
+				if op == token.QUO {
+					return q
+				}
+				return r
+			}
 			var o sym.Op
 			switch {
 			case op == token.QUO && signed:
@@ -722,3 +729,43 @@ func (m *Machine) growSlice(dst Slice, n int, et types.Type) Slice {
 }
 
 var _ = math.MaxInt64
+
+// divByConst encodes x / c and x % c (c a non-zero constant) by their defining equations
+// x = q*c + r, |r| < |c|, sign(r) follows x (Go's truncated division), with q bounded so that q*c
+// cannot wrap. Bit-blasting a constant multiplier is far cheaper than a 64-bit divider.
+func (m *Machine) divByConst(x, c *sym.Term, signed bool) (q, r *sym.Term) {
+	key := fmt.Sprintf("%d/%d/%v", x.ID, c.C, signed)
+	if e, ok := m.divCache[key]; ok {
+		return e[0], e[1]
+	}
+	s := x.Sort
+	q = m.F.Var(m.freshName("h_q"), s)
+	r = m.F.Var(m.freshName("h_r"), s)
+	zero := m.F.Const(s, 0)
+	if signed {
+		cv := c.Int64()
+		if cv == -1 {
+			q, r = m.F.Neg(x), zero
+			m.divCache[key] = [2]*sym.Term{q, r}
+			return
+		}
+		ac := cv
+		if ac < 0 {
+			ac = -ac
+		}
+		M := int64(math.MaxInt64 / ac)
+		m.addPC(m.F.Eq(x, m.F.Bin(sym.OAdd, m.F.Bin(sym.OMul, q, c), r)))
+		m.addPC(m.F.And(m.F.Bin(sym.OSLE, m.i64(-M-1), q), m.F.Bin(sym.OSLE, q, m.i64(M+1))))
+		nonneg := m.F.Bin(sym.OSLE, zero, x)
+		rpos := m.F.And(m.F.Bin(sym.OSLE, zero, r), m.F.Bin(sym.OSLT, r, m.i64(ac)))
+		rneg := m.F.And(m.F.Bin(sym.OSLT, m.i64(-ac), r), m.F.Bin(sym.OSLE, r, zero))
+		m.addPC(m.F.Ite(nonneg, rpos, rneg))
+	} else {
+		M := uint64(math.MaxUint64) / c.C
+		m.addPC(m.F.Eq(x, m.F.Bin(sym.OAdd, m.F.Bin(sym.OMul, q, c), r)))
+		m.addPC(m.F.Bin(sym.OULE, q, m.bv(64, M)))
+		m.addPC(m.F.Bin(sym.OULT, r, c))
+	}
+	m.divCache[key] = [2]*sym.Term{q, r}
+	return
+}
